@@ -36,11 +36,11 @@ CHECKS = {
          "Every honest session completes after exactly #messages messages on both sides, every handshake and transport payload is returned intact, both sides report the same handshake hash and every ephemeral is drawn during its write - for every name, 4 transport modes, payload lengths 0..max per message index (covering subset), all 62 direction strings; PSKs supplied only through set_psk, or replaced through it.",
          "OS randomness is a seam answer and is not enumerated (one labelled sample run per base pattern); hfs/Kyber names only in the hfs build; Curve448 has no resolver."),
  "C03": ("fault_enumeration", "E1 fault product (executor + reference field map)",
-         "exhaustive enumeration of single alterations (every bit / one bit per byte, every truncation, extensions, substitutions, a P-256 key sent in the clear replaced by its negated point) of every handshake message, then pairs; oracle from the reference field map",
+         "exhaustive enumeration of single alterations (every bit / one bit per byte, every truncation, extensions - also read into a buffer that fits the genuine payload exactly -, substitutions, a P-256 key sent in the clear replaced by its negated point) of every handshake message, then pairs; oracle from the reference field map",
          "For every handshake name and message: no alteration lets both parties finish without an error, and an alteration that touches a field the reference field map marks encrypted (or changes the length of an encrypted tail) is rejected by the receiving read itself; also after an earlier altered copy was rejected, and with two altered messages.",
          "A complete first message of a parallel session is a valid message (Noise has no replay protection for it): exempt from clause (b), and from (a) for one-way patterns; random multi-byte edits are replaced by the exhaustive single-bit/truncation/substitution alphabets."),
  "C04": ("fault_enumeration", "E1 product (executor, provenance model)",
-         "exhaustive enumeration of deliveries to transport reads: every single-bit flip, every truncation, extensions, constants, reflection, cross-session and handshake messages, and all ordered pairs of an 80-value nonce alphabet in stateless mode",
+         "exhaustive enumeration of deliveries to transport reads: every single-bit flip, every truncation, extensions (roomy buffer, a buffer that fits the genuine payload exactly, one byte short of the extended message's), constants, reflection, cross-session and handshake messages, and all ordered pairs of an 80-value nonce alphabet in stateless mode",
          "A transport read returns Ok iff the delivered bytes are the unaltered message the peer wrote for this session, direction, key and nonce (then exactly the payload); 2 million deliveries over 38 patterns + psk variants x 3 ciphers x 2 backends x both modes in the quick tier. When /repo/src contains a synchronisation primitive, concurrent reads are also explored on the shuttle-mapped copy (every interleaving at those primitives).",
          "Acceptance oracle is the crypto-free provenance model; random 64-bit nonces replaced by boundary + all single-bit values."),
  "C08": ("model_checking", "E1 product (executor as driver)",
@@ -53,7 +53,7 @@ CHECKS = {
          "Two open known findings (P-256 scalar 0 or >= n panics in derive_pubkey via Dh::set / Dh::generate) are listed in known_findings.json; allocation-failure aborts cannot occur at the sizes used."),
  "C12": ("model_checking", "E1 complete product",
          "complete enumeration of the finite builder configuration space (patterns x roles x key subsets x psk modifiers x supplied psk subsets x 7 resolvers x 3 DH names) against requirements derived from the spec pattern text, then the honest handshake of every buildable pair",
-         "build_* succeeds iff the role's required keys are supplied, every modifier is implemented and fits, and the resolver is complete, with the matching error kind otherwise; no successfully built pair fails later for missing key material; an omitted PSK yields MissingPsk exactly at the message that needs it, an all-zero substitute never completes, set_psk then completes.",
+         "build_* succeeds iff the role's required keys are supplied, every modifier is implemented and fits, and the resolver is complete, with the matching error kind otherwise; no successfully built pair fails later for missing key material; an omitted PSK yields MissingPsk exactly at the message that needs it, an all-zero substitute never completes, set_psk then completes - also after refused set_psk calls for that slot (wrong key length, location past the last slot), which supply nothing.",
          "Requirements come from refnoise's parse of the specification's arrow notation, not from snow's tables; keys have the DH's key length."),
  "C13": ("model_checking", "E1 product against a reference recogniser",
          "exhaustive enumeration of strings (full valid product with modifier lists of length <= 3 in every order, all single-edit mutations of 600 names, all strings of length <= 6 over a 10-letter alphabet in the handshake field, structure variations) parsed by snow and by a reference recogniser",
@@ -68,7 +68,7 @@ CHECKS = {
          "Stateless round trips for an 80-nonce alphabet x 4 sizes, all 120 orders x 3 repetitions of five calls, all 24 orders of four different-length messages x tight/roomy/alternating output buffers, equality with the stateful sender for n in 0..=8, 8 large nonces (via the nonce hook) and the 65519-byte payload; 2x2 and 3x1 thread mixes (923 / 25 424 / 2 274 schedules each) all return what the sequential function returns.",
          "On the pinned tree snow has no lock/atomic/cell (scanned on every run): preemptions inside a segment are covered by the type system. When /repo/src mentions any sync primitive the exploration is repeated on a copy whose std/core sync primitives are mapped to shuttle's (every atomic/lock op a scheduling point). The free-running real-thread run is a sample and labelled so."),
  "C17": ("model_checking", "E1 product (executor, pattern-derived model)",
-         "exhaustive enumeration of handshake names x DH x supplied-key variants x transport modes, getter compared at every point of the session including around failing calls",
+         "exhaustive enumeration of handshake names x DH x supplied-key variants x ephemerals {fixed at build, drawn by the write that needs them} x transport modes, getter compared at every point of the session including around failing calls",
          "get_remote_static equals the model at every point: absent before the pattern conveys the key, exactly the peer's full public key (32 / 65 bytes) afterwards, identical across HandshakeState, TransportState and StatelessTransportState, unaffected by failing calls.",
          "The peer's true key is computed by ring from its private key; a key supplied although the pattern transmits it is shown until the transmitted one has been read."),
  "C18": ("model_checking", "E1 product over the resolver objects vs independent implementations",
